@@ -66,7 +66,7 @@ def main():
         "setup_cmd": "bin/check setup",
         "hooks": {
             "guard": "verif",
-            "enable": "go1.26.8 test -c -tags verif -overlay=build/overlay.json in sim/<engine> (harness modules replace the repository modules by path => /repo working tree)",
+            "enable": "go1.26.8 test -c -tags verif -overlay=build/overlay.main[.stream].json in sim/<engine> (harness modules replace the repository modules by path => /repo working tree)",
             "baseline_off_cmd": "bin/check baseline-off",
             "source_commits": repo_commits(),
             "add_only": True,
